@@ -428,6 +428,7 @@ func allCells() []cell {
 				cs = append(cs, cell{kind: "exit", addr: "-", size: sz, fb: fb, senders: s})
 			}
 			cs = append(cs, cell{kind: "log", addr: "-", size: sz, fb: "off", senders: s})
+			cs = append(cs, cell{kind: "viameta", addr: "-", size: sz, fb: "off", senders: s})
 			cs = append(cs, cell{kind: "metamsg", addr: "alias", size: sz, fb: "off", senders: s})
 			cs = append(cs, cell{kind: "metacall", addr: "alias", size: sz, fb: "off", senders: s})
 		}
@@ -515,17 +516,24 @@ func runCell(cl cell, budget int) {
 	}
 	var subject any = rc.pid
 	var m *actors.Meta
-	if isMeta {
+	if isMeta || cl.kind == "viameta" {
 		m = actors.NewMeta(id, metaHooksFor(c))
 		ch := make(chan gen.Alias, 1)
-		node.Send(rc.pid, spawnMeta{M: m, Opt: gen.MetaOptions{MailboxSize: cl.size}, Done: ch})
+		mopt := gen.MetaOptions{MailboxSize: cl.size}
+		if cl.kind == "viameta" {
+			mopt = gen.MetaOptions{} // the relaying meta process is unbounded; the bounded mailbox is the parent's
+		}
+		node.Send(rc.pid, spawnMeta{M: m, Opt: mopt, Done: ch})
 		select {
 		case a, ok := <-ch:
 			if !ok {
 				fail("spawn meta", fmt.Errorf("refused"))
 				return
 			}
-			to, subject = a, a
+			to = a
+			if isMeta {
+				subject = a
+			}
 			metas = append(metas, a)
 			insts = append(insts, m.I)
 		case <-time.After(5 * time.Second):
@@ -618,6 +626,9 @@ func runCell(cl cell, budget int) {
 		select {
 		case <-cmd.Done:
 			c.record(cmd.Out)
+			if cmd.Harness != "" && r.incon == "" {
+				r.incon = cmd.Harness
+			}
 		case <-time.After(90 * time.Second):
 			if r.incon == "" {
 				r.incon = "watchdog: a sender did not finish"
@@ -765,6 +776,7 @@ func runTerm(tc tcase) {
 		}
 	}
 	hk.Stress(id, map[string]float64{
+		"proc.run.wake": 0.5, "meta.wake": 0.5, // between a sender's push and its return
 		"proc.run.tosleep": 0.2, "proc.run.recheck": 0.2, "proc.run.term.err": 0.5, "proc.run.term.kill": 0.5,
 		"proc.kill.zombie": 0.5, "proc.kill.term": 0.5, "proc.unreg.deleted": 0.5, "proc.unreg.name": 0.5, "proc.unreg.alias": 0.5, "mpsc.push.swapped": 0.02,
 	}, 200*time.Microsecond)
@@ -823,7 +835,7 @@ func runTerm(tc tcase) {
 }
 
 func runAllTerm() {
-	reps := hk.Pick(1, 6)
+	reps := hk.Pick(4, 16)
 	for rep := 0; rep < reps; rep++ {
 		for _, how := range []string{"kill", "error"} {
 			for _, sz := range []int64{0, 5} {
